@@ -166,7 +166,7 @@ def run_multiple(chk, want):
     bad_merge, bad_iter, fails = [], [], []
     bad_prog, bad_split = [], []
     nprog = nsplit = 0
-    n = chk.n(1200, 6000)
+    n = chk.n(1200, 24000)
     nmerge = 0
     npass = 0
     for it in range(n):
@@ -248,7 +248,7 @@ def run_multiple(chk, want):
                 nsplit += 1
                 if o != 'M ' + rows_line(a):
                     bad_split.append((seqs, sp, o))
-        for itr in rec.iters:
+        for itr in (rec.iters if want == 'C11' else []):     # the end-of-pass decision is C11's mechanism, not C04's
             if itr['check'] != 'final' or itr['n_idx'] == 1 or not itr['seen']:
                 continue
             # the last sum_of_pairs evaluation inside the pass is the end-of-pass check on the candidate matrix
@@ -267,8 +267,9 @@ def run_multiple(chk, want):
                        'correspondence', not bad_prog, 'alignments=%d mismatches=%d' % (nprog, len(bad_prog)))
         chk.obligation('correspondence:refinement split (_split, _align_profile, _join) == Lean refineSplit, hypotheses of C04_refineSplit (rectb, splitOkb) hold on the observed data', 'correspondence', not bad_split,
                        'splits=%d mismatches=%d' % (nsplit, len(bad_split)))
-    chk.obligation('correspondence:end-of-pass decision of _iter == Lean iterFinal (same gap weight on both sides, exact restore)', 'correspondence',
-                   not bad_iter, 'passes=%d mismatches=%d %s' % (npass, len(bad_iter), str(bad_iter[0])[:200] if bad_iter else ''))
+    if want == 'C11':
+        chk.obligation('correspondence:end-of-pass decision of _iter == Lean iterFinal (same gap weight on both sides, exact restore)', 'correspondence',
+                       not bad_iter, 'passes=%d mismatches=%d %s' % (npass, len(bad_iter), str(bad_iter[0])[:200] if bad_iter else ''))
     chk.obligation('oracle:%s statement on Multiple objects' % want, 'correspondence', not fails, 'alignments=%d failures=%d' % (n, len(fails)))
     fails.sort(key=lambda f: sum(map(len, f[0])))
     for f in fails[:2]:
@@ -285,7 +286,7 @@ def run_wordlist_alignments(chk):
     from lingpy import Alignments
     rng = chk.rng
     fails = []
-    n = chk.n(120, 800)
+    n = chk.n(120, 3200)
     for it in range(n):
         d = wlgen.gen_wordlist(rng, with_tokens=True, with_cogid=True, min_langs=2, max_langs=5, max_concepts=4)
         try:
@@ -323,7 +324,7 @@ def run_mult_align(chk):
     from lingpy.align.multiple import mult_align
     rng = chk.rng
     fails = []
-    n = chk.n(200, 1500)
+    n = chk.n(200, 6000)
     for it in range(n):
         k = rng.choice([2, 3, 4, 5])
         alpha = 'abcde'[:rng.choice([2, 3, 5])]
